@@ -100,7 +100,7 @@ func viewPublicKey(r *Run, st *absint.State, pk absint.Val, asg map[*sym.Term]bo
 	if t := loadPtrTerm(r.Ex, st, v.pointPtr); t != nil {
 		v.point = ResolveIte(t, asg)
 	}
-	pb := resolveChoice(fieldVal(r.Ex, st, pp, prog, models.SececPkg, "PublicKey", "pointBytes"), asg)
+	pb := resolveChoice(bytesField(r.Ex, st, pp, prog, models.SececPkg, "PublicKey", "pointBytes"), asg)
 	v.pointBytes = bytesUnder(r.Ex, st, pb, asg)
 	return v, ""
 }
@@ -372,9 +372,9 @@ func c10Accessors(c *Ctx, prog *load.Program) {
 				// an initialised key: the cached encoding is a 65-byte string
 				kp := args[0].(*absint.Ptr)
 				ib := FieldIndex(prog, models.SececPkg, "PublicKey", "pointBytes")
-				arr := ex.BytesToSlice(st, enc, "pointBytes")
-				arr.Base.Obj.Origin = absint.Origin{Kind: "param", Root: "k.pointBytes"}
-				ex.StoreLeaf(st, ex.FieldPtr(kp, ib), arr, 0)
+				if arr := storeBytesField(ex, st, kp, prog, models.SececPkg, "PublicKey", ib, enc, "pointBytes"); arr != nil {
+					arr.Base.Obj.Origin = absint.Origin{Kind: "param", Root: "k.pointBytes"}
+				}
 			}
 		}})
 		k := "accessor/" + a.typ + "." + a.name
@@ -403,7 +403,7 @@ func c10Accessors(c *Ctx, prog *load.Program) {
 		r := RunFn(prog, protoSet(nil), name, &RunOpts{Args: named("k"), Pre: func(ex *absint.Exec, st *absint.State, args []absint.Val) {
 			kp := args[0].(*absint.Ptr)
 			ib := FieldIndex(prog, models.SececPkg, "PublicKey", "pointBytes")
-			ex.StoreLeaf(st, ex.FieldPtr(kp, ib), ex.BytesToSlice(st, encP, "pointBytes"), 0)
+			storeBytesField(ex, st, kp, prog, models.SececPkg, "PublicKey", ib, encP, "pointBytes")
 		}})
 		pos := PosOf(prog, r.Fn)
 		if p := runComplete(r); p != "" || r.Out.Ret == nil {
